@@ -71,6 +71,8 @@ DEFS = [
     ('def raises(n):\n    if n:\n        raise ValueError("x%d" % n)\n    return 0\n\n\ndef catcher():\n    try:\n        return raises(1)\n    except ValueError as e:\n        return str(e)\n', 'catcher()'),
     ('def kwonly(a, /, b, *args, c=3, **kw):\n    return (a, b, args, c, sorted(kw))\n', 'kwonly(1, 2, 3, c=4, z=5)'),
     ('lam = lambda q: q + 1\n', 'lam(1)'),
+    # behaviour that depends on how the program is compiled (annotations evaluated at definition time)
+    ('def annotated(value: float, times: int = 2) -> float:\n    return value * times\n', '(annotated(1.5), annotated.__annotations__["value"] is float, sorted(annotated.__annotations__))'),
     ('def meta(n):\n    """doc of meta"""\n    return n\n', '(meta.__name__, meta.__doc__, str(inspect.signature(meta)), inspect.isgeneratorfunction(gen) if "gen" in globals() else None)'),
     ('try:\n    import helper as guarded\nexcept ImportError:\n    guarded = None\n', 'guarded.hg(2) if guarded else None'),
     ('if True:\n    from other import of as cond_of\n', 'cond_of(3)'),
